@@ -182,3 +182,19 @@ Theorem C01_refine_nonvacuous :
   /\ Fs.look ReprExample.ex_s3 (Repr.fp [10; 20] ++ [Fs.Props]) = Some (Fs.F (Repr.pcode TCal [])).
 Proof. exact ReprExample.R_nonvacuous. Qed.
 Print Assumptions C01_refine_nonvacuous.
+
+(* A whole request as dispatched by `handle` (home creation by the gate, then the method), for EVERY request
+   kind except DELETE of the root collection and MOVE of a path onto itself: each of the two stages either leaves
+   the ideal store as it is or is served by one storage operation that refines it (ReprHandle.step_ok), and the
+   invariant is kept, so the statement chains over request histories. *)
+Require RV.Proofs.ReprHandle.
+Theorem C01_refine_handle : forall cfg pol user s sigma r sigma' resp,
+  Repr.R s sigma -> store_inv sigma -> Fs.fs_inv_weak s -> ReprHandle.covered r ->
+  handle cfg pol user sigma r = (sigma', resp) ->
+  let sigma1 := ensure_home pol sigma user in
+  ReprHandle.step_ok sigma sigma1 s /\
+  store_inv sigma1 /\
+  (forall s1, Repr.R s1 sigma1 -> Fs.fs_inv_weak s1 -> ReprHandle.step_ok sigma1 sigma' s1) /\
+  store_inv sigma'.
+Proof. exact ReprHandle.handle_refines. Qed.
+Print Assumptions C01_refine_handle.
